@@ -76,12 +76,12 @@ theorem inSpan_old (t : Nat → Rat) (B s : Nat) (x umax : Rat) (c : InsCtx t B 
         exact h
 
 /-- the matrix of `one_knot_insert_once` as a list of lists -/
-def insMat (U : List Rat) (p : Nat) (x : Rat) (s m n : Nat) : Mat :=
-  (List.range (n + 1)).map fun r => (List.range n).map fun c => insOnceEntry U p x s m r c
+def insMat (U : List Rat) (p : Nat) (x : Rat) (s n : Nat) : Mat :=
+  (List.range (n + 1)).map fun r => (List.range n).map fun c => insOnceEntry U p x s r c
 
-theorem insMat_matVec_getD (U : List Rat) (p : Nat) (x : Rat) (s m n : Nat) (f : List Rat) (hf : f.length = n)
+theorem insMat_matVec_getD (U : List Rat) (p : Nat) (x : Rat) (s n : Nat) (f : List Rat) (hf : f.length = n)
     (r : Nat) (hr : r < n + 1) :
-    (matVec (insMat U p x s m n) f).getD r 0 = ∑ c ∈ range n, insOnceEntry U p x s m r c * f.getD c 0 := by
+    (matVec (insMat U p x s n) f).getD r 0 = ∑ c ∈ range n, insOnceEntry U p x s r c * f.getD c 0 := by
   unfold matVec insMat
   rw [List.getD_eq_getElem?_getD, List.getElem?_map, List.getElem?_map, List.getElem?_range hr]
   simp only [Option.map_some, Option.getD_some]
@@ -91,20 +91,20 @@ theorem insMat_matVec_getD (U : List Rat) (p : Nat) (x : Rat) (s m n : Nat) (f :
   simp only [mem_range] at hc
   simp [List.getD_eq_getElem?_getD, hc]
 
-theorem insMat_matVec_length (U : List Rat) (p : Nat) (x : Rat) (s m n : Nat) (f : List Rat) :
-    (matVec (insMat U p x s m n) f).length = n + 1 := by
+theorem insMat_matVec_length (U : List Rat) (p : Nat) (x : Rat) (s n : Nat) (f : List Rat) :
+    (matVec (insMat U p x s n) f).length = n + 1 := by
   simp [matVec, insMat]
 
 /-- **one insertion step (list level).**  `U` sorted with `n + p + 1` entries bounded by `umax`, `U[s] ≤ x < U[s+1]`,
-`p ≤ s < n`, at most `p` copies of `x` present; then for every coefficient list `f` and every parameter `u` lying in a
+`p ≤ s < n`; then for every coefficient list `f` and every parameter `u` lying in a
 non-empty span `sh` of the new knots: the function `Σ f_i N_{i,p}` is reproduced by the coefficients `M f` over the new
 knots. -/
-theorem insert_step_core (U : List Rat) (umax : Rat) (n p s m : Nat) (x : Rat) (f : List Rat) (u : Rat) (sh : Nat)
+theorem insert_step_core (U : List Rat) (umax : Rat) (n p s : Nat) (x : Rat) (f : List Rat) (u : Rat) (sh : Nat)
     (hsorted : sortedLE U = true) (hmax : ∀ a, a ≤ U.length - 1 → nth U a ≤ umax)
     (hlen : n + p + 1 = U.length) (hps : p ≤ s) (hsn : s < n) (hlo : nth U s ≤ x) (hhi : x < nth U (s + 1))
-    (hm : m ≤ p) (hf : f.length = n) (hpsh : p ≤ sh) (hshn : sh < n + 1)
+    (hf : f.length = n) (hpsh : p ≤ sh) (hshn : sh < n + 1)
     (hin : InSpan (nth (isort (U ++ [x]))) umax sh u) :
-    dot (cdbRow (isort (U ++ [x])) umax (n + 1) p u) (matVec (insMat U p x s m n) f)
+    dot (cdbRow (isort (U ++ [x])) umax (n + 1) p u) (matVec (insMat U p x s n) f)
       = dot (cdbRow U umax n p u) f := by
   have hmono := mono_of_sortedLE U hsorted
   have hfun : nth (isort (U ++ [x])) = insKnots (nth U) s x := by
@@ -131,13 +131,13 @@ theorem insert_step_core (U : List Rat) (umax : Rat) (n p s m : Nat) (x : Rat) (
   have hos : oldSpan s sh < n := by unfold oldSpan; split <;> omega
   have hpos : p ≤ oldSpan s sh := by unfold oldSpan; split <;> omega
   rw [dot_cdbRow_eq_spanSum (isort (U ++ [x])) umax (n + 1) p sh u _ hmono' hmax' (by omega) hshn hin
-      (insMat_matVec_length U p x s m n f),
+      (insMat_matVec_length U p x s n f),
     dot_cdbRow_eq_spanSum U umax n p (oldSpan s sh) u f hmono hmax hlen hos hold hf, hfun]
-  rw [C04_boehm_preserves U (U.length - 1) p s m n x sh u (fun i => f.getD i 0) hmono (by omega) hlo hhi
-    hinI.lt hpos (by omega) (by omega) hsn hps hm (by omega)]
+  rw [C04_boehm_preserves U (U.length - 1) p s n x sh u (fun i => f.getD i 0) hmono (by omega) hlo hhi
+    hinI.lt hpos (by omega) (by omega) hsn hps (by omega)]
   apply spanSum_congr
   intro r _ hr
-  exact insMat_matVec_getD U p x s m n f hf r (by omega)
+  exact insMat_matVec_getD U p x s n f hf r (by omega)
 
 theorem tol9_le_tol6 : tol9 ≤ tol6 := by unfold tol9 tol6; decide +kernel
 
@@ -169,50 +169,26 @@ theorem insert_step_model (k k' : KV) (x : Rat) (M : Mat) (f : List Rat) (u : Ra
   · split at hM
     · cases hM
     · rename_i s hs
-      split at hM
-      · cases hM
-      · rename_i m hmult
-        simp only [Except.ok.injEq] at hM
-        have hMeq : M = insMat k.v k.deg x s m k.npts := hM.symm
-        have hlenk := g.ord.len
-        have hps : k.deg ≤ s := span_ge_deg k g.deg_lt x s hs
-        have hsn : s < k.npts := span_lt_npts k g.ord x s hs (by have := g.deg_lt; omega)
-        have hspan : nth k.v s ≤ x ∧ x < nth k.v (s + 1) := by
-          rcases span_spec k x s hs with h | ⟨h, _⟩
-          · exact h
-          · exfalso; rw [h] at hx; exact lt_irrefl _ hx
-        -- multiplicity
-        have hm : m ≤ k.deg := by
-          have hmm : m = k.multSingle x := by
-            unfold KV.mult at hmult
-            split at hmult
-            · cases hmult
-            · simp only [Except.ok.injEq] at hmult; exact hmult.symm
-          have hxin : x ∈ k'.v := by rw [hvk', mem_isort]; simp
-          have hspec : k.multSingle x = cnt k.v x := by
-            apply mult_spec
-            intro y hy
-            by_cases e : y = x
-            · exact Or.inl e
-            · right
-              have hyin : y ∈ k'.v := by rw [hvk', mem_isort]; simp [hy]
-              exact le_trans tol9_le_tol6 (hsep' x hxin y hyin (fun h => e h.symm))
-          have hc : cnt k'.v x = cnt k.v x + 1 := by
-            rw [hvk', cnt_isort, cnt_append]; simp [cnt]
-          have := hwf'.mult_le x hxin
-          rw [hdeg] at this
-          omega
-        have hlen' : k'.v.length = k.v.length + 1 := by rw [hvk', length_isort]; simp
-        have hnpts' : k'.npts = k.npts + 1 := by unfold KV.npts; rw [hlen', hdeg]; unfold KV.npts at hlenk; omega
-        have humax' : k'.umax = k.umax := by
-          unfold KV.umax
-          rw [hnpts', hvk', nth_isort_append_single k.v s x hwf.sorted (by omega) hspan.1 (le_of_lt hspan.2),
-            insKnots_gt _ _ _ _ (by omega)]
-          rfl
-        obtain ⟨sh, hsh1, hsh2, hin⟩ := exists_span k' g' u hu
-        rw [humax', hnpts', hdeg, hvk', hMeq]
-        rw [humax', hvk'] at hin
-        exact insert_step_core k.v k.umax k.npts k.deg s m x f u sh hwf.sorted g.ord.le_umax hlenk hps hsn
-          hspan.1 hspan.2 hm hf (by omega) (by omega) hin
+      simp only [Except.ok.injEq] at hM
+      have hMeq : M = insMat k.v k.deg x s k.npts := hM.symm
+      have hlenk := g.ord.len
+      have hps : k.deg ≤ s := span_ge_deg k g.deg_lt x s hs
+      have hsn : s < k.npts := span_lt_npts k g.ord x s hs (by have := g.deg_lt; omega)
+      have hspan : nth k.v s ≤ x ∧ x < nth k.v (s + 1) := by
+        rcases span_spec k x s hs with h | ⟨h, _⟩
+        · exact h
+        · exfalso; rw [h] at hx; exact lt_irrefl _ hx
+      have hlen' : k'.v.length = k.v.length + 1 := by rw [hvk', length_isort]; simp
+      have hnpts' : k'.npts = k.npts + 1 := by unfold KV.npts; rw [hlen', hdeg]; unfold KV.npts at hlenk; omega
+      have humax' : k'.umax = k.umax := by
+        unfold KV.umax
+        rw [hnpts', hvk', nth_isort_append_single k.v s x hwf.sorted (by omega) hspan.1 (le_of_lt hspan.2),
+          insKnots_gt _ _ _ _ (by omega)]
+        rfl
+      obtain ⟨sh, hsh1, hsh2, hin⟩ := exists_span k' g' u hu
+      rw [humax', hnpts', hdeg, hvk', hMeq]
+      rw [humax', hvk'] at hin
+      exact insert_step_core k.v k.umax k.npts k.deg s x f u sh hwf.sorted g.ord.le_umax hlenk hps hsn
+        hspan.1 hspan.2 hf (by omega) (by omega) hin
 
 end NV
